@@ -23,7 +23,10 @@ def widen {α} (t : ATag) (xs : List Val) (fs : List (Val → Res Val)) (extra :
   match r with
   | .err cs =>
     if enum2 t xs then
-      .err (Cat.dedup (cs ++ extra ++ xs.flatMap (fun x => fs.flatMap (fun f => match f x with | .err c => c | _ => []))))
+      -- an element whose own outcome is not settled (it depends on another enumeration order, or the model declines)
+      -- may be the first one to fail under another order, with a category the model cannot name
+      if xs.any (fun x => fs.any (fun f => match f x with | .ok _ => false | .err _ => false | _ => true)) then .nondet
+      else .err (Cat.dedup (cs ++ extra ++ xs.flatMap (fun x => fs.flatMap (fun f => match f x with | .err c => c | _ => []))))
     else .err cs
   | r => r
 
